@@ -26,9 +26,9 @@ fn sim_result(r: &Resp) -> Option<(bool, String)> {
     match r {
         Resp::Ok(Value::String(s)) => Some((true, s.to_lowercase())),
         Resp::Err { code: 3, data, message } => {
-            if message == "Call failed" {
-                return None; // the engine refused to simulate (validation error), nothing to compare
-            }
+            // "Call failed" = the engine could not run the simulation at all: that predicts failure
+            // (all senders used here are plain accounts, so the transaction itself is well-formed)
+            let _ = message;
             Some((false, data.as_str().unwrap_or("0x").to_lowercase()))
         }
         _ => None,
